@@ -62,3 +62,8 @@ package schema
 //@           (len(i.rbs) == 0 || exists(k, 0, len(i.rbs), i.rbs[k].Start <= int_val(s) && int_val(s) <= i.rbs[k].End)))
 //@   loop 0 invariant forall(k, 0, loopidx+1, !(i.rbs[k].Start <= int_val(s) && int_val(s) <= i.rbs[k].End))
 //@   loop 0 invariant iff(loopidx >= 0, e != nil)
+
+// Node attributes used by the compiler's filters (pure accessors).
+//@ func (Node).Config
+//@   nopanic
+//@   ensures result == node_config(self)
